@@ -22,7 +22,7 @@ import c05_real, c05_gen, c05_instr
 
 MODEL_FILES = ['MaltModel/Py/Trace.lean', 'MaltModel/Cfg/Builder.lean', 'MaltModel/Cfg/AstToCfg.lean',
                'MaltModel/Cfg/Check.lean', 'MaltModel/Proofs/C05Proj.lean', 'MaltModel/Proofs/C05Check.lean',
-               'MaltModel/Proofs/C05Frame.lean', 'MaltModel/Proofs/C05Paths2.lean', 'MaltModel/Proofs/C05Wf.lean', 'MaltModel/Proofs/C05Owners.lean',
+               'MaltModel/Proofs/C05Frame.lean', 'MaltModel/Proofs/C05FrameX.lean', 'MaltModel/Proofs/C05Paths3.lean', 'MaltModel/Proofs/C05Paths3Exit.lean', 'MaltModel/Proofs/C05Paths3B.lean', 'MaltModel/Proofs/C05Paths3T.lean', 'MaltModel/Proofs/C05Paths3C.lean', 'MaltModel/Proofs/C05Wf.lean', 'MaltModel/Proofs/C05Owners.lean',
                'MaltModel/Drv/C05.lean']
 
 CLS_JUMP = 'jump_in_handler_of_try_with_finally'
@@ -109,8 +109,10 @@ def new_stats():
     return dict(programs=0, graphs=0, graph_equal=0, both_error=0, error_kinds={}, skipped_other=0,
                 runs=0, run_outcomes={}, runs_exhaustive=0, walk_equal=0, wf_ok=0, pc_ok=0, pc_rejected_expected=0,
                 nodes=0, edges=0, max_nodes=0, features={}, mirror_checked=0, nontrivial=0, owners_equal=0,
-                hyp={'supported': 0, 'finally_free_fragment': 0, 'distinct_keys': 0, 'no_jump_in_handler_of_try_with_finally': 0,
-                     'in_scope_of_C05_paths_partial': 0, 'covered_by_checker_only': 0},
+                hyp={'supported': 0, 'parsed_shape': 0, 'distinct_keys3': 0, 'no_jump_in_handler_of_try_with_finally': 0,
+                     'fnFrag3': 0, 'in_scope_of_C05_paths': 0, 'of_which_with_a_finally_block': 0,
+                     'covered_by_checker_only': 0, 'of_which_in_the_known_finding_class': 0,
+                     'of_which_real_builder_fails_an_assert': 0},
                 fails=[], broken={})
 
 
@@ -218,18 +220,29 @@ def process(cases, driver_ok, execute, dec_len=0, dec_runs=0):
                 else:
                     st['graph_equal'] += len(mg)
             elif what == 'hyp':
-                sup, frag, dist, nojump, distown = [v == 'True' for v in common.parse_sexp(ans)]
+                sup, frag3, dist, nojump, distown, shape, frag2 = [v == 'True' for v in common.parse_sexp(ans)]
                 c.hyp_owner = sup and distown
                 h = st['hyp']
-                h['supported'] += sup; h['finally_free_fragment'] += frag; h['distinct_keys'] += dist
+                h['supported'] += sup; h['parsed_shape'] += shape; h['distinct_keys3'] += dist; h['fnFrag3'] += frag3
                 h['no_jump_in_handler_of_try_with_finally'] += nojump
-                if sup and frag and dist and not c.real.error:
-                    h['in_scope_of_C05_paths_partial'] += 1
-                elif sup and not c.real.error:
+                # programs under the proved theorem C05_paths (all its hypotheses hold and the graph exists) vs the rest
+                if sup and shape and dist and nojump and not c.real.error:
+                    h['in_scope_of_C05_paths'] += 1
+                    h['of_which_with_a_finally_block'] += (not frag2)
+                elif sup:
                     h['covered_by_checker_only'] += 1
+                    h['of_which_in_the_known_finding_class'] += (not nojump)
+                    h['of_which_real_builder_fails_an_assert'] += bool(c.real.error)
                 # the key-distinctness hypothesis may fail only where the real builder itself fails
                 if not dist and not c.real.error:
-                    broken(st, 'hypothesis:fnDistinctKeys', json.dumps({'key': c.key, 'source': c.source}))
+                    broken(st, 'hypothesis:fnDistinctKeys3', json.dumps({'key': c.key, 'source': c.source}))
+                # the shape conditions hold of every parsed program of the walk's language
+                if sup and not shape:
+                    broken(st, 'hypothesis:fnParsedShape', json.dumps({'key': c.key, 'source': c.source}))
+                # fnFrag3 is exactly: supported, parsed shape, outside the class of the known finding
+                if frag3 != (sup and shape and nojump):
+                    broken(st, 'hypothesis:fnFrag3', json.dumps({'key': c.key, 'source': c.source, 'frag3': frag3,
+                           'supported': sup, 'shape': shape, 'nojump': nojump}))
             elif what == 'owners':
                 # lexical containment (the Lean specification `fnOwnSpec`) == the real builder's `owners`, node by node
                 if getattr(c, 'hyp_owner', False):
@@ -472,7 +485,7 @@ def check(run):
     # ---- obligations from the accumulated statistics
     if run.driver_ok:
         names = ['correspondence:c05.graph', 'correspondence:c05.walk', 'correspondence:c05.owners', 'checker:wellFormed',
-                 'checker:pathCheck', 'hypothesis:fnDistinctKeys']
+                 'checker:pathCheck', 'hypothesis:fnDistinctKeys3', 'hypothesis:fnParsedShape', 'hypothesis:fnFrag3']
         for nme in names:
             det = total['broken'].get(nme, [])
             run.oblige(nme, nme.split(':')[0], not det, '\n'.join(det[:3]))
